@@ -531,6 +531,22 @@ func c04ScalarLastWins(c *an.Ctx, fns []*ssa.Function, mo map[*ssa.Function]bool
 					key += fmt.Sprintf("#%d", nOK[key])
 				}
 			}
+			// first-k-wins: leaving the loop from inside makes the outcome depend on which elements came first
+			early := false
+			for _, e := range l.ExitEdges() {
+				if e[0].(*ssa.BasicBlock) != l.Header {
+					early = true
+				}
+			}
+			ekey := strings.Replace(key, "scalar variables in the loop", "no early exit from the loop", 1)
+			if early {
+				if !doneKeys[ekey] {
+					doneKeys[ekey] = true
+					c.Bad("R2", ekey, phi.Pos(), "a loop over a map-ordered sequence can be left from inside: only the elements that happen to come first in this run's map order are processed, so which values match, the match data and per-match counters change from run to run")
+				}
+			} else {
+				c.Ok("R2", ekey, phi.Pos(), "the loop runs over the whole sequence")
+			}
 			if len(targets) > 0 {
 				c.Bad("R2", key, phi.Pos(), "inside a loop over a map-ordered sequence, scalar variables are overwritten per element ("+strings.Join(sortedKeys(targets), ", ")+"): the element that comes last in map order wins, and later readers (chained rules, macros) see a run-dependent value")
 			} else {
